@@ -466,16 +466,27 @@ impl Drop for Guard {
 }
 
 #[cfg(not(miri))]
+/// the simulated machine is finite whether or not the run is being tracked: an absurd request from one of dashu's
+/// fallible allocation sites is refused (otherwise the real allocator would hand out gigabytes to be filled)
+#[cfg(not(miri))]
+const NATIVE_BUDGET: usize = 256 << 20;
+
+#[cfg(not(miri))]
+fn over_budget(size: usize) -> bool {
+    size > NATIVE_BUDGET && dashu_int::verif::in_fallible_site()
+}
+
+#[cfg(not(miri))]
 unsafe impl GlobalAlloc for SimAlloc {
     unsafe fn alloc(&self, layout: Layout) -> *mut u8 {
-        if should_fail() {
+        if should_fail() || over_budget(layout.size()) {
             return std::ptr::null_mut();
         }
         let _g = Guard::take();
         native::st().alloc(layout, tracking(), false)
     }
     unsafe fn alloc_zeroed(&self, layout: Layout) -> *mut u8 {
-        if should_fail() {
+        if should_fail() || over_budget(layout.size()) {
             return std::ptr::null_mut();
         }
         let _g = Guard::take();
@@ -486,7 +497,7 @@ unsafe impl GlobalAlloc for SimAlloc {
         native::st().dealloc(ptr, layout)
     }
     unsafe fn realloc(&self, ptr: *mut u8, layout: Layout, new_size: usize) -> *mut u8 {
-        if should_fail() {
+        if should_fail() || over_budget(new_size) {
             return std::ptr::null_mut();
         }
         let _g = Guard::take();
